@@ -88,6 +88,10 @@ class Havoc:
         return f'<havoc {self.name}>'
 
 
+class ShapeOutOfDate(Exception):
+    """the contract (not the code) needs an update: a checker error, never a verdict"""
+
+
 class CutReached(Exception):
     """the cut-point loop of the contract under verification was reached: its clauses are evaluated, the path ends"""
     def __init__(self, env):
@@ -531,8 +535,24 @@ class Interp:
 
     def st_Assign(self, st, env):
         v = self.ev(st.value, env)
+        if (isinstance(st.value, ast.List) and not st.value.elts and len(st.targets) == 1 and isinstance(st.targets[0], ast.Name)
+                and self._extended_later(env, st.targets[0].id)):
+            # `name = []` that is `.extend(...)`-ed later in the same function: a list object that can take whole symbolic
+            # sequences (the same object semantics, a richer representation)
+            v = XList(None, [], False)
         for t in st.targets:
             self.assign(t, v, env)
+
+    def _extended_later(self, env, name):
+        fnode = getattr(getattr(env, 'func', None), 'node', None)
+        if fnode is None:
+            return False
+        key = (id(fnode), name)
+        cache = self.__dict__.setdefault('_ext_cache', {})
+        if key not in cache:
+            cache[key] = any(isinstance(n, ast.Call) and isinstance(n.func, ast.Attribute) and n.func.attr == 'extend'
+                             and isinstance(n.func.value, ast.Name) and n.func.value.id == name for n in ast.walk(fnode))
+        return cache[key]
 
     def st_AnnAssign(self, st, env):
         if st.value is not None:
@@ -1298,6 +1318,8 @@ class Interp:
         from .seq import SSeq
         if isinstance(a, (GList, SPredSet, SSet, SSeq, tuple)) or isinstance(b, (GList, SPredSet, SSet, SSeq, tuple)):
             return a is b
+        if type(a).__name__ in ('SRangeIter', 'SRange', 'IterVal') or type(b).__name__ in ('SRangeIter', 'SRange', 'IterVal'):
+            return a is b
         raise Unsupported('identity comparison')
 
     def equals(self, a, b):
@@ -1482,6 +1504,10 @@ class Interp:
             c, expr = obj.cls.find_class_assign(attr)
             if expr is not None:
                 return self.class_attr(c, attr, expr)
+            if not obj.fresh and self._set_by_constructor(obj.cls, attr):
+                # an input object of a contract that does not have an attribute the (current) constructor sets: the contract's
+                # input shape is out of date, not the code under verification
+                raise ShapeOutOfDate(f'the input shape of the contract lacks attribute {attr!r}, which {obj.cls.name}.__init__ sets')
             self.raise_py('AttributeError')
         if isinstance(obj, ClassInfo):
             if obj.is_enum:
@@ -2115,6 +2141,16 @@ class Interp:
             self.depth -= 1
             self.cur_func, self.cur_line = saved
         return flow, value, env
+
+    def _set_by_constructor(self, cls, attr):
+        for c in cls.mro():
+            init = c.methods.get('__init__')
+            if init is None:
+                continue
+            for n in ast.walk(init.node):
+                if isinstance(n, ast.Attribute) and isinstance(n.ctx, ast.Store) and n.attr == attr and isinstance(n.value, ast.Name) and n.value.id == 'self':
+                    return True
+        return False
 
     def builtin_open(self, args, kwargs):
         self.events.append(('ext', 'open', tuple(args), dict(kwargs)))
